@@ -42,6 +42,15 @@ fn spec() -> CtxSpec {
             HostFn { kind: "hv2", name: "in_".into() },
             HostFn { kind: "hthis_v", name: "m1_".into() },
             HostFn { kind: "hv1", name: "__".into() },
+            // host functions registered under the very names the operators carry in the tree
+            HostFn { kind: "hv1", name: "-_".into() },
+            HostFn { kind: "hv1", name: "!_".into() },
+            HostFn { kind: "hv2", name: "_+_".into() },
+            HostFn { kind: "hv2", name: "_[_]".into() },
+            HostFn { kind: "hv2", name: "@in".into() },
+            HostFn { kind: "hv2", name: "_==_".into() },
+            HostFn { kind: "hv2", name: "_&&_".into() },
+            HostFn { kind: "hv3", name: "_?_:_".into() },
             // the all-arguments extractor next to another extractor (known finding K02: an argument
             // the other extractor has resolved is resolved again)
             HostFn { kind: "hthis_args", name: "ta".into() },
@@ -206,6 +215,10 @@ pub fn run(em: &mut Emit, thorough: bool, seed: u64) {
               "tag(0, 1) in [tag(1, 2) in [tag(2, 3) in [tag(3, 4) in [tag(4, 5) in [tag(5, 6) in [tag(6, 7)]]]]]]",
               "tag(1, 'k') in {tag(2, 'a'): tag(3, 1), tag(4, 'b'): tag(5, 2)}", "tag(1, 9) in l", "tag(1, 2) in tag(2, l)",
               "tag(1, 1).ta(tag(2, 2), tag(3, 3))", "tag(1, 1).ta()", "ta(tag(1, 1), tag(2, 2), tag(3, 3))", "ta(tag(1, 1))",
+              // operators over operands they do not support, with host functions registered under the operators' own names
+              "-tag(1, 5u)", "-tag(1, 's')", "-(-(-(-(-tag(1, 5u)))))", "!tag(1, 5)", "!tag(1, 's')", "-tag(1, l)", "[-tag(1, 5u), tag(2, 2)]",
+              "tag(1, 's') + tag(2, 1)", "tag(1, 1)[tag(2, 0)]", "tag(1, 1) in tag(2, 2)", "tag(1, l) == tag(2, 's')", "tag(1, 's') && tag(2, l)",
+              "tag(1, 's') ? tag(2, 1) : tag(3, 2)", "l.map(x, -tag(x, 5u))", "-tag(1, 5)", "-tag(1, 2.5)", "!tag(1, true)",
               "pa(tag(1, 1), tag(2, 2))", "tag(1, 1).pa(tag(2, 2))", "ap(tag(1, 1), tag(2, 2))", "ap(tag(1, 1))", "pa(tag(1, 1))", "ta()", "pa()"] {
         emit_with_law(em, p, &sp, "nt=1;kind=corpus");
     }
